@@ -186,7 +186,9 @@ CHECKS = {
             "append failing at 3 sites, scripted perf_counter timeouts. Gate closed => reflect never called, index and t3_reflection.jsonl "
             "untouched; open => <= ops entries, summaries within the token limit, nothing written on error/timeout; every turn: utterance, "
             "canonical log deltas, stage objects, snapshots, store and version equal the reflection-off twin; ids/ts pure in (agent, "
-            "turn, slot, text).",
+            "turn, slot, text). plan_flag: 2-6 calls of the real LLM policy (run_policy) on one state with valid/fenced/prose/schema-"
+            "invalid/adapter-error/raising/inactive planner outcomes, then the real gate: the request consulted is the one of this "
+            "call's plan (no stale flag after a fallback).",
             "Trusted: the reflection-off twin as oracle; ts compared only for equal logical now_ms.",
             "DESIGN.md §3 C19"),
     "C20": ("fault_enumeration",
